@@ -47,6 +47,11 @@ func vpCollect(r *vpReader, cap int) []vpItem {
 // vpName is a symbolic name of n bytes over all 256 values; while the known
 // class "contains a line break" is excluded it has no LF/CR.
 func vpName(tag string, n int) string {
+	if n >= 1000 {
+		// long names: symbolic bytes over lower-case letters only (all byte
+		// values are covered by the short names)
+		return string(vpSparse(tag, n, func(c byte) bool { return c >= 'a' && c <= 'z' }))
+	}
 	s := vpStr(tag, n)
 	if vpCase("exclLineBreak") == 1 || vpNoLineBreakContent {
 		for i := 0; i < len(s); i++ {
